@@ -312,7 +312,7 @@ Inductive info_out :=
 | INil                      (* (nil, nil) *)
 | IErrNoMetadata
 | IErrNoKeyspace            (* Session.KeyspaceMetadata("") *)
-| IPanic                    (* columns[col] with col out of range (server-supplied pk index) *)
+| IErrBadIndex              (* session.go:660 a server-supplied pk index outside the bind columns: an error (not cached) *)
 | IInfo (indexes : list Z). (* types[i] is columns[indexes[i]].TypeInfo in both branches *)
 
 (* Session.routingKeyInfo after the prepare (session.go:646-727).
@@ -321,10 +321,11 @@ Inductive info_out :=
    table_pk = Some (names of tableMetadata.PartitionKey) when the table is in the keyspace metadata. *)
 Definition routing_info (col_count : Z) (cols : list (list Z)) (pkey : list Z) (ks0_empty : bool)
                         (table_pk : option (list (list Z))) : info_out :=
-  if col_count =? 0 then INil
+  (* session.go:648 colCount == 0 || len(columns) == 0: no arguments (or none described), no key, no error *)
+  if (col_count =? 0) || (Z.of_nat (length cols) =? 0) then INil
   else match pkey with
        | _ :: _ =>
-           if forallb (fun c => (0 <=? c) && (c <? Z.of_nat (length cols))) pkey then IInfo pkey else IPanic
+           if forallb (fun c => (0 <=? c) && (c <? Z.of_nat (length cols))) pkey then IInfo pkey else IErrBadIndex
        | [] =>
            if ks0_empty then IErrNoKeyspace else
            match table_pk with
@@ -352,7 +353,7 @@ Definition get_routing_key (explicit : option (list Z)) (binding : bool)
            | INil => RKNil
            | IErrNoMetadata => RKErrNoMetadata
            | IErrNoKeyspace => RKErrNoKeyspace
-           | IPanic => RKPanic
+           | IErrBadIndex => RKErr
            | IInfo idx =>
                create_routing_key (Some (map (fun i => (i, nth (Z.to_nat i) per_col MErr)) idx)) nvalues
            end
